@@ -300,7 +300,8 @@ def chao1(counts):
     hatSchao1 = Sobs + f1^2/(2 f2)
     """
     
-    f1 = counts[0]
+    # promote to float: elements of a NumPy integer array are fixed-width and f1**2 would wrap around
+    f1 = 1.0 * counts[0]
     Sobs = np.sum(counts)
 
     if (len(counts) == 1) or (counts[1] == 0):
@@ -330,7 +331,8 @@ def chao2(counts, m):
     m: number of replicates
     """
   
-    q1 = counts[0]
+    # promote to float: elements of a NumPy integer array are fixed-width and q1**2 would wrap around
+    q1 = 1.0 * counts[0]
     Sobs = np.sum(counts)
 
     if (len(counts) == 1) or (counts[1] == 0):
